@@ -485,7 +485,7 @@ def nan_proof_ranges(prog, rep, RID):
     import ast
     from sa.pm import norm, dotted, AnalysisError
     n = 0
-    WHAT = re.compile(r"coverage|percentile|^value$|epsilon")
+    WHAT = re.compile(r"coverage|percentile|^value$|epsilon|^tolerance$")
 
     def nan_eval(t):
         if isinstance(t, ast.BoolOp):
@@ -532,6 +532,94 @@ def nan_proof_ranges(prog, rep, RID):
     if n < 6:
         raise AnalysisError(f"range checks of coverage / scaling / percentile parameters: only {n} found")
     return n
+
+
+def lowerbound_helpers_on_unvalidated_input(prog, rep, RID):
+    """MinFlowDecomp.get_lowerbound_k() runs before the first k-model validates the input, so its helpers see invalid inputs:
+    (a) the min-generating-set helper leaves (returns None) before MinGenSet is built when a flow value is not >= 0 (written so that NaN fails too);
+    (b) the window scan selects the constraints of a window by shape-guarded edge membership: `isinstance(e, tuple)` precedes the membership test, which
+        is against the edges of the window (a list-shaped edge is unhashable: TypeError instead of the ValueError of the k-model)."""
+    import ast
+    from sa.pm import norm, dotted, calls_in, AnalysisError
+    f = prog.own_method("MinFlowDecomp", "_get_lowerbound_with_min_gen_set")
+    calls = [c for c in calls_in(f.node) if (dotted(c.func) or "").endswith("MinGenSet")]
+    if not calls:
+        raise AnalysisError("MinFlowDecomp._get_lowerbound_with_min_gen_set: MinGenSet call not found")
+
+    def nan_true(t):
+        """value of t when every ordering comparison is False (NaN operand)"""
+        if isinstance(t, ast.BoolOp):
+            vals = [nan_true(v) for v in t.values]
+            if isinstance(t.op, ast.Or):
+                return True if any(v is True for v in vals) else (None if any(v is None for v in vals) else False)
+            return False if any(v is False for v in vals) else (None if any(v is None for v in vals) else True)
+        if isinstance(t, ast.UnaryOp) and isinstance(t.op, ast.Not):
+            v = nan_true(t.operand)
+            return None if v is None else (not v)
+        if isinstance(t, ast.Compare) and all(isinstance(o, (ast.Lt, ast.LtE, ast.Gt, ast.GtE)) for o in t.ops):
+            return False
+        if isinstance(t, ast.Call) and (dotted(t.func) or "") in ("math.isnan", "isnan", "np.isnan", "numpy.isnan"):
+            return True
+        if isinstance(t, ast.Call) and (dotted(t.func) or "") in ("math.isfinite", "isfinite", "np.isfinite", "numpy.isfinite"):
+            return False
+        return None
+    key = "MinFlowDecomp._get_lowerbound_with_min_gen_set:invalid-flows-give-no-bound"
+    guard = None
+    for st in f.node.body:
+        if getattr(st, "lineno", 0) >= calls[0].lineno:
+            break
+        if isinstance(st, ast.If) and not st.orelse and st.body and isinstance(st.body[-1], ast.Return) and isinstance(st.test, ast.Call) and \
+                dotted(st.test.func) == "any" and st.test.args and isinstance(st.test.args[0], (ast.GeneratorExp, ast.ListComp)):
+            g = st.test.args[0]
+            reads_flow = "flow_attr" in norm(g.elt)
+            zero = any(isinstance(x, ast.Constant) and x.value == 0 and not isinstance(x.value, bool) for c in ast.walk(g.elt) if isinstance(c, ast.Compare) for x in [c.left] + list(c.comparators))
+            if reads_flow and zero and not g.generators[0].ifs and "self.G.edges" in norm(g.generators[0].iter):
+                guard = (st, nan_true(g.elt))
+    if guard is None:
+        rep.violation(RID, key, "MinGenSet is built from the flow values before anything validated them (get_lowerbound_k precedes the first k-model): with "
+                      "use_min_gen_set_lowerbound=True a negative flow value reaches MinGenSet as a negative total and solve() raises a bare "
+                      "Exception('Failed to add columns to the model.') instead of the documented ValueError; no guard returns None for values that are not >= 0",
+                      f.loc(calls[0]))
+    elif guard[1] is not True:
+        rep.violation(RID, key, f"the guard `{norm(guard[0].test)[:90]}` is False for NaN (every comparison with NaN is False): NaN flow values still reach MinGenSet", f.loc(guard[0]))
+    else:
+        rep.ok(RID, key, f"`{norm(guard[0].test)[:90]}` -> no bound", f.loc(guard[0]))
+    # (b)
+    g = prog.own_method("MinFlowDecomp", "_get_lowerbound_with_subgraph_scanning")
+    key = "MinFlowDecomp._get_lowerbound_with_subgraph_scanning:window-constraints"
+    sel = [st for st in ast.walk(g.node) if isinstance(st, ast.Assign) and len(st.targets) == 1 and isinstance(st.targets[0], ast.Name) and
+           isinstance(st.value, ast.ListComp) and len(st.value.generators) == 1 and norm(st.value.generators[0].iter) == "self.subpath_constraints"]
+    if not sel:
+        passed = [k for c in calls_in(g.node) if (dotted(c.func) or "") == "MinFlowDecomp" for k in c.keywords if k.arg == "subpath_constraints"]
+        if passed and norm(passed[0].value) not in ("[]", "None"):
+            raise AnalysisError("MinFlowDecomp._get_lowerbound_with_subgraph_scanning: selection of the window constraints not recognised")
+        rep.ok(RID, key, "no constraint is handed to the window models", g.loc())
+        return
+    comp = sel[-1].value
+    cvar = norm(comp.generators[0].target)
+    conds = comp.generators[0].ifs
+    inner = [c for t in conds for c in ast.walk(t) if isinstance(c, ast.Call) and dotted(c.func) == "all" and c.args and isinstance(c.args[0], (ast.GeneratorExp, ast.ListComp)) and
+             norm(c.args[0].generators[0].iter) == cvar]
+    if len(inner) != 1:
+        raise AnalysisError("MinFlowDecomp._get_lowerbound_with_subgraph_scanning: the filter of the window constraints is not `all(... for e in constraint)`")
+    ev = norm(inner[0].args[0].generators[0].target)
+    elt = inner[0].args[0].elt
+    parts = elt.values if isinstance(elt, ast.BoolOp) and isinstance(elt.op, ast.And) else [elt]
+    texts = [norm(p_) for p_ in parts]
+    member = [i for i, t in enumerate(texts) if re.search(r"\bin \w+\.(nodes|edges)\b|\.has_edge\(|\.has_node\(", t)]
+    shape = [i for i, t in enumerate(texts) if t == f"isinstance({ev}, tuple)"]
+    if not member:
+        raise AnalysisError("MinFlowDecomp._get_lowerbound_with_subgraph_scanning: membership test of the window filter not recognised")
+    mt = texts[member[0]]
+    if re.search(r"\bin \w+\.nodes\b|\.has_node\(", mt) and ev in mt:
+        rep.violation(RID, key, f"`{mt}` tests the elements of a constraint - edges - for membership among the *nodes* of the window: for a malformed constraint with "
+                      "list-shaped edges ([['a', 'b']]) the test raises TypeError('unhashable type') from solve() before the k-model can reject the input with ValueError "
+                      "(and no well-formed constraint is ever selected)", g.loc(sel[-1]), self_contained=True)
+    elif not shape or shape[0] > member[0]:
+        rep.violation(RID, key, f"`{mt}` is evaluated on elements that were not checked to be tuples: a list-shaped edge is unhashable and raises TypeError from solve() "
+                      "instead of the ValueError of the k-model", g.loc(sel[-1]), self_contained=True)
+    else:
+        rep.ok(RID, key, f"`isinstance({ev}, tuple)` precedes `{mt}`", g.loc(sel[-1]))
 
 
 def greedy_padding_guard(prog, rep, RID):
@@ -646,6 +734,7 @@ def check(prog: Program, rep):
     nan_proof_ranges(prog, rep, "C19.R6")
     greedy_padding_guard(prog, rep, "C19.R6")
     node_mode_constraint_shapes(prog, rep, "C19.R6")
+    lowerbound_helpers_on_unvalidated_input(prog, rep, "C19.R6")
     from rules.plumb import options_none_safe
     options_none_safe(prog, rep, "C19.R6")
     from rules.plumb import default_k_handled, additional_nodes_typed
